@@ -96,10 +96,18 @@ func canonicalShape(ops []Op) bool {
 // ModelMismatch compares the implementation's observations with the
 // model's on one history.  Returns nil when they agree.
 func ModelMismatch(fileBacked bool, ops []Op, obs []string) (*Mismatch, int) {
+	multi := false
 	for _, o := range ops {
-		if o.H != 0 || !modelKinds[o.K] {
+		if o.K == "snap" || o.K == "close" || o.H != 0 {
+			multi = true
+			continue
+		}
+		if !modelKinds[o.K] {
 			return nil, 0
 		}
+	}
+	if multi {
+		return multiModelMismatch(fileBacked, ops, obs)
 	}
 	if len(obs) < len(ops) {
 		ops = ops[:len(obs)]
@@ -204,6 +212,8 @@ func ConformsModel(img []byte, cmpOf map[string]int) string {
 	return r
 }
 
+var dmodelHistOK, dmodelHistNotOK int
+
 var dmodelKinds = map[string]bool{"coll": true, "rmcoll": true, "names": true, "set": true, "del": true, "get": true, "geti": true,
 	"exist": true, "min": true, "max": true, "tot": true, "flush": true, "evict": true, "reopen": true, "revert": true,
 	"asc": true, "ascx": true, "itasc": true, "desc": true, "descx": true, "itdesc": true, "len": true, "nasc": true, "ndesc": true, "nit": true}
@@ -248,6 +258,15 @@ func DModelMismatch(ops []Op, obs []string, digests []string) *Mismatch {
 		if line == "END" {
 			break
 		}
+		if strings.HasPrefix(line, "history_ok ") {
+			// the hypotheses of theorem c02_history / c08_walks_back, evaluated on this history
+			if line == "history_ok true" {
+				dmodelHistOK++
+			} else {
+				dmodelHistNotOK++
+			}
+			continue
+		}
 		lines = append(lines, line)
 	}
 	canon := canonicalShape(ops)
@@ -277,4 +296,71 @@ func DModelMismatch(ops []Op, obs []string, digests []string) *Mismatch {
 		}
 	}
 	return nil
+}
+
+// multiModelMismatch: histories with snapshots go through MStore.mrun (several handles).
+func multiModelMismatch(fileBacked bool, ops []Op, obs []string) (*Mismatch, int) {
+	for _, o := range ops {
+		if o.K == "snap" || o.K == "close" {
+			continue
+		}
+		if !modelKinds[o.K] || (o.H != 0 && (o.K == "revert" || o.K == "reopen" || o.K == "junk" || o.K == "coll" || o.K == "rmcoll")) {
+			return nil, 0 // what a reverted snapshot shows is not specified; snapshots get no collection management
+		}
+	}
+	if len(obs) < len(ops) {
+		ops = ops[:len(obs)]
+	}
+	m := getModel()
+	var sb strings.Builder
+	fb := 0
+	if fileBacked {
+		fb = 1
+	}
+	fmt.Fprintf(&sb, "mrun %d %d\n", fb, len(ops))
+	for _, o := range ops {
+		sb.WriteString(o.String())
+		sb.WriteByte('\n')
+	}
+	if _, err := io.WriteString(m.in, sb.String()); err != nil {
+		return &Mismatch{Kind: "model-runner", Observed: err.Error()}, 0
+	}
+	var mo []string
+	for {
+		line, err := m.out.ReadString('\n')
+		if err != nil {
+			return &Mismatch{Kind: "model-runner", Observed: "model runner died: " + err.Error()}, 0
+		}
+		line = strings.TrimRight(line, "\n")
+		if line == "END" {
+			break
+		}
+		if strings.HasPrefix(line, "ERR") {
+			return &Mismatch{Kind: "model-runner", Observed: line}, 0
+		}
+		mo = append(mo, line)
+	}
+	canon := canonicalShape(ops)
+	for i := range ops {
+		if i >= len(mo) {
+			break
+		}
+		got, exp := obs[i], mo[i]
+		if exp == "skip" || got == "skip" {
+			continue
+		}
+		switch ops[i].K {
+		case "asc", "desc", "itasc", "itdesc", "nasc", "ndesc", "nit":
+			exp = stripDepth(exp)
+		case "ascx", "descx":
+			if !canon {
+				exp, got = stripDepth(exp), stripDepth(got)
+			}
+		}
+		if got != exp {
+			return &Mismatch{Step: i, Op: ops[i].String(), Kind: "model", Expected: exp, Observed: got,
+				Note: "implementation vs the Coq model MStore.mrun (several handles); the sorted-map reference agreed with the implementation on this step"}, i
+		}
+	}
+	return nil, len(ops)
 }
